@@ -981,6 +981,13 @@ func libraryFacts(bp *boundsProver, v ssa.Value, facts []lin) []lin {
 			walk(x.X, d+1)
 		case *ssa.Call:
 			sc := x.Call.StaticCallee()
+			if sc != nil && len(sc.Blocks) > 0 && inModule(sc) {
+				// a module helper every result of which is a small constant or a math/bits count: result ≤ that bound
+				if ub, ok := smallResultBound(sc); ok {
+					out = append(out, newLin(ub).add(bp.linOf(x, 0), -1))
+				}
+				return
+			}
 			if sc == nil || len(x.Call.Args) != 1 {
 				return
 			}
@@ -1052,4 +1059,64 @@ func libraryFacts(bp *boundsProver, v ssa.Value, facts []lin) []lin {
 	}
 	walk(v, 0)
 	return out
+}
+
+// smallResultBound: every value g returns is (an integer conversion of) a non-negative constant below 128 or a
+// math/bits LeadingZeros/TrailingZeros/Len count; returns the largest such bound (small enough to survive any
+// integer conversion).
+func smallResultBound(g *ssa.Function) (int64, bool) {
+	if g.Signature.Results().Len() != 1 || !isIntegerT(g.Signature.Results().At(0).Type()) {
+		return 0, false
+	}
+	best, n, ok := int64(0), 0, true
+	allInstrs(g, func(in ssa.Instruction) {
+		r, isR := in.(*ssa.Return)
+		if !isR {
+			return
+		}
+		rs := retResults(r)
+		if len(rs) != 1 {
+			ok = false
+			return
+		}
+		n++
+		for _, leaf := range phiLeaves(rs[0]) {
+			v := stripConv(leaf)
+			if k, isC := constInt(v); isC && k >= 0 && k < 128 {
+				if k > best {
+					best = k
+				}
+				continue
+			}
+			call, isCall := v.(*ssa.Call)
+			if !isCall || call.Call.StaticCallee() == nil {
+				ok = false
+				return
+			}
+			name := call.Call.StaticCallee().String()
+			w := int64(0)
+			for _, p := range []string{"math/bits.LeadingZeros", "math/bits.TrailingZeros", "math/bits.Len"} {
+				if strings.HasPrefix(name, p) {
+					switch strings.TrimPrefix(name, p) {
+					case "8":
+						w = 8
+					case "16":
+						w = 16
+					case "32":
+						w = 32
+					case "64", "":
+						w = 64
+					}
+				}
+			}
+			if w == 0 {
+				ok = false
+				return
+			}
+			if w > best {
+				best = w
+			}
+		}
+	})
+	return best, ok && n > 0
 }
